@@ -14,7 +14,9 @@ from .imapdrv import MaildirWorld, run
 
 async def race(n, layout, with_check):
     errors = []
-    w = await MaildirWorld(layout=layout).start(users=(('alice', 'apass'),))
+    # one lock acquisition may sleep through FileLock's whole retry sequence (10 s) before it is granted or refused, and a
+    # command takes several: "no answer" is only declared well beyond that (the statement sets no time bound)
+    w = await MaildirWorld(layout=layout, time_budget=90.0).start(users=(('alice', 'apass'),))
     try:
         w.config.apply_context()          # what pymap.main does: the threading subsystem for this backend
     except Exception:   # noqa
